@@ -376,7 +376,11 @@ class Codec(ABC):
                 if data_source.exists_nonversioned(key):
                     # A key already exists at the content addressable hash location.
                     # Do not create a new object version - it can be reused.
-                    return data_source.get_versioned_key(key)
+                    versioned_key = data_source.get_versioned_key(key)
+                    # The link may be in the middle of being rewritten by another thread or
+                    # process storing the same bytes: only hand out a version that is there.
+                    if data_source.exists_versioned(versioned_key):
+                        return versioned_key
             return data_source.output(key, BytesIO(data))
 
         @abstractmethod
